@@ -494,4 +494,7 @@ def run(ck, tier):
     ck.assume('what the transport really returns is not decided')
     from .. import ownership as _own
     ck.guard(_own.rule_instance_owned, ck, cx, 'R4', _own.MANAGERS[:1], 'a unit that timed out on one client is treated as silent by every other client, which then sizes exception replies as full-length replies', 1)
+    from .. import ownership as _own2
+    ck.rule('R5', 'no unsound memoisation (a caching decorator on a method, or on a function that returns a mutable container) in the modules this property rests on')
+    ck.guard(_own2.rule_no_unsafe_memo, ck, cx, 'R5', ('pymodbus.transaction',) + ('pymodbus.utilities', 'pymodbus.pdu', 'pymodbus.factory', 'pymodbus.bit_read_message', 'pymodbus.bit_write_message', 'pymodbus.register_read_message', 'pymodbus.register_write_message', 'pymodbus.diag_message', 'pymodbus.file_message', 'pymodbus.other_message', 'pymodbus.mei_message'), 'the predicted length is the one cached for another request')
     return cx.idx
